@@ -222,3 +222,14 @@ func (mgr *Manager) VerifSetIndexDir(dir string) {
 	}
 	<-c
 }
+
+// VerifListenerCount returns the number of event listeners the service still knows (read inside the service loop).
+// A listener whose client went away while deliveries were waiting stays registered until those deliveries have
+// given up; Close must not run before that (it would close the listener's channel a second time).
+func (mgr *Manager) VerifListenerCount() int {
+	c := make(chan int)
+	mgr.jobs <- func() {
+		c <- len(mgr.listeners)
+	}
+	return <-c
+}
